@@ -41,12 +41,6 @@ add("KF-kron-nd", ["C01", "C04", "C09", "C15"],
     {"prim": "kron", "args": {"__any_item__": {"__re__": "[rc][345].*"}}, "symptom": ["wrong_value", "not_adjoint", "wrong_shape", "modes_disagree"]},
     case("kron", [A(2, 2, 2), A(2, 2, 2)], argnum=0))
 
-add("KF-pad-jvp-nonlinear-modes", ["C02", "C09", "C15"],
-    "forward-mode np.pad applies pad(g, width, mode) to the tangent for every mode; for the non-linear statistics modes (maximum, minimum, median) that is not the derivative (reverse mode asserts mode == 'constant')",
-    [{"prim": "pad", "mode": ["fwd"], "args": {"2": {"__re__": "str:(maximum|minimum|median)"}}, "symptom": ["wrong_value"]},
-     {"prim": "pad", "mode": ["fwd"], "kw": {"mode": {"__re__": "str:(maximum|minimum|median)"}}, "symptom": ["wrong_value"]}],
-    case("pad", [A(5), 1, "maximum"], tags=["unsupported_mode"]), witness_mode="fwd")
-
 add("KF-cholesky-complex", ["C09"],
     "np.linalg.cholesky of a complex Hermitian matrix: the rule symmetrises with a plain transpose (no conjugate) and is wrong for complex input",
     {"prim": "cholesky", "args": {"0": {"__re__": "c.*"}}, "symptom": ["wrong_value", "not_adjoint"]},
@@ -117,6 +111,7 @@ fixed("FX-select-dtype", ["C06", "C02", "C05"], "40f09be", "autograd.numpy.selec
        "default": P.encode_case(case("select", [[onp.zeros(4, dtype=bool)], [A(4)]], argnum=0, form="selectfun"))})
 fixed("FX-array-ndmin", ["C01", "C02", "C05"], "0fd5721", "np.array(list_of_arrays, ndmin>natural rank): VJP returned a gradient with the prepended axes, JVP scattered into the wrong slot", case("array", [[A(2), A(2)]], {"ndmin": 3}, argnum=0, form="listfun"))
 fixed("FX-linspace-array-endpoints", ["C01", "C02", "C05", "C15"], "feeb86a", "np.linspace with an array endpoint and a scalar endpoint: the scalar endpoint received a vector gradient / wrongly shaped tangent", case("linspace", [A(2), 0.7, 4], argnum=1, tags=["array_endpoints"]))
+fixed("FX-pad-jvp-modes", ["C02", "C15"], "8d5fb8b", "forward-mode np.pad padded the tangent for the non-linear statistics modes (silently wrong) and ignored stat_length / reflect_type", case("pad", [A(5), 1, "maximum"], tags=["unsupported_mode"]), witness_mode="fwd")
 fixed("FX-where-jvp-broadcast", ["C05", "C02"], "423a953", "forward-mode np.where returned a tangent with the branch's shape/kind instead of the output's", case("where", [cc, A(3), A(2, 2, 3)], argnum=1), witness_mode="fwd")
 
 out = {"_comment": "Known findings: genuine defects of HIPS/autograd that are recorded rather than repaired (status open) and defects repaired by a 'fix:' commit (status fixed; fixed entries suppress nothing - their witnesses are re-run on every check and a failing one is an ordinary VIOLATION). `match` is a conjunction over fields of the case signature (lists = any of; {__re__}: regex; {__has__}: list membership); never a seed, hash or random value. Read-only at run time.", "findings": F}
